@@ -9,31 +9,31 @@ input; composed with `C14.generated_volume_eq_model` the level clauses of the pr
 namespace C14
 open Vol Trav Gen.Algo RefineVolume RefineTravFront RefineVolFront
 
-variable (volSphere : Int → ℝ) (volFrustum : Int × Int → ℝ) (volSF : Int → Int × Int → ℝ) (volPairs : Int → List (Int × Int) → ℝ) (volMC : ℝ)
+variable (volSphere : Int → ℝ) (volFrustum : Int × Int → ℝ) (volSF : Int → Int × Int → ℝ) (volPairs : Int → List (Int × Int) → ℝ) (mcScene : List Py.Shape → ℝ)
 
 /-- **`get_volume(tree, accuracy=acc)` = the hand-written model**, every tree, every analytic accuracy `1 … 9`, the default method: no exception, and
 the value `Vol.treeVolume` computes at that level from the same primitive volumes -/
 theorem get_volume_eq_model (acc : Nat) (h1 : 0 < acc) (h9 : acc < 10) (ids pids : List Int) (r : Rose) (h : Represents r ids pids) (h0 : r.id = 0)
     (hok : Rows r ids) (F : Nat) :
-    get_volume_int volSphere volFrustum volSF volPairs volMC (2 * r.size + F + 1) ids pids "frustum_cone" (acc : Int)
+    get_volume_int volSphere volFrustum volSF volPairs mcScene (2 * r.size + F + 1) ids pids "frustum_cone" (acc : Int)
       = some (.ok (treeVolume acc (terms volSphere volFrustum volSF volPairs) ids pids r.id (2 * r.size))) := by
-  rw [get_volume_int_eq, generated_volume_eq_model volSphere volFrustum volSF volPairs volMC acc (by omega) ids pids r h h0 hok F]
+  rw [get_volume_int_eq, generated_volume_eq_model volSphere volFrustum volSF volPairs mcScene acc (by omega) ids pids r h h0 hok F]
   have a1 : (0 : Int) < acc := by omega
   have a2 : (acc : Int) ≤ 10 := by omega
   simp [a1, a2]
   omega
 
 /-- **every well-formed tree, every integer accuracy, every method** — the complete behaviour of `get_volume`: `AssertionError` iff the accuracy is
-outside `1 … 10`; else `ValueError` iff the method is not `"frustum_cone"`; else at `10` the Monte-Carlo-only value, and at `1 … 9` the sum over
+outside `1 … 10`; else `ValueError` iff the method is not `"frustum_cone"`; else at `10` the Monte-Carlo estimate of the scene `sceneOf r` (the generated mc-only routine, called by the generated code), and at `1 … 9` the sum over
 the tree of the generated per-node value at that level -/
 theorem get_volume_every_tree (pids : List Int) (hw : C07.WF pids) :
     ∃ r : Rose, C06.IsTree r pids ∧ ∀ (method : String) (acc : Int) (F : Nat),
-      get_volume_int volSphere volFrustum volSF volPairs volMC (2 * r.size + F + 1) (Sub.rangeI pids.length) pids method acc
+      get_volume_int volSphere volFrustum volSF volPairs mcScene (2 * r.size + F + 1) (Sub.rangeI pids.length) pids method acc
         = if ¬ (0 < acc ∧ acc ≤ 10) then some (.error assertionError)
           else if method ≠ "frustum_cone" then some (.error unsupportedMethod)
-          else if acc = 10 then some (.ok volMC)
+          else if acc = 10 then some (.ok (mcScene (sceneOf r)))
           else some (.ok (sumRose (fun i ks => nodeVal acc.toNat (terms volSphere volFrustum volSF volPairs i ks)) r)) := by
-  obtain ⟨r, hr, hall⟩ := generated_volume_every_tree volSphere volFrustum volSF volPairs volMC pids hw
+  obtain ⟨r, hr, hall⟩ := generated_volume_every_tree volSphere volFrustum volSF volPairs mcScene pids hw
   refine ⟨r, hr, ?_⟩
   intro method acc F
   rw [get_volume_int_eq]
@@ -41,7 +41,12 @@ theorem get_volume_every_tree (pids : List Int) (hw : C07.WF pids) :
   · by_cases hm : method = "frustum_cone"
     · by_cases h10 : acc = 10
       · subst h10
-        simp [hm, getVolume_level10]
+        have hok : Rows r (Sub.rangeI pids.length) := by
+          intro j hj
+          have := (C06.isTree_mem hr j).1 hj
+          simp only [Sub.rangeI, List.length_map, List.length_range]
+          omega
+        simp [hm, getVolume_level10, mc_only_refines mcScene _ pids r hr.1 hr.2.2.1 hok F]
       · have hn : acc.toNat ≠ 10 := by omega
         have := hall acc.toNat hn F
         rw [Int.toNat_of_nonneg (by omega)] at this
@@ -51,25 +56,25 @@ theorem get_volume_every_tree (pids : List Int) (hw : C07.WF pids) :
 
 /-- **level 1, `get_volume` itself, every tree**: the sum of the node spheres -/
 theorem get_volume_level1_every_tree (ids pids : List Int) (r : Rose) (h : Represents r ids pids) (h0 : r.id = 0) (hok : Rows r ids) (F : Nat) :
-    get_volume_int volSphere volFrustum volSF volPairs volMC (2 * r.size + F + 1) ids pids "frustum_cone" 1
+    get_volume_int volSphere volFrustum volSF volPairs mcScene (2 * r.size + F + 1) ids pids "frustum_cone" 1
       = some (.ok (sumRose (fun i _ => volSphere i) r)) := by
-  rw [get_volume_int_eq, generated_level1_every_tree volSphere volFrustum volSF volPairs volMC ids pids r h h0 hok F]
+  rw [get_volume_int_eq, generated_level1_every_tree volSphere volFrustum volSF volPairs mcScene ids pids r h h0 hok F]
   simp
 
 /-- **level 2, `get_volume` itself, every tree**: node spheres plus the frusta to the children -/
 theorem get_volume_level2_every_tree (ids pids : List Int) (r : Rose) (h : Represents r ids pids) (h0 : r.id = 0) (hok : Rows r ids) (F : Nat) :
-    get_volume_int volSphere volFrustum volSF volPairs volMC (2 * r.size + F + 1) ids pids "frustum_cone" 2
+    get_volume_int volSphere volFrustum volSF volPairs mcScene (2 * r.size + F + 1) ids pids "frustum_cone" 2
       = some (.ok (sumRose (fun i ks => volSphere i + Py.sumNum (ks.map fun c => volFrustum (i, c))) r)) := by
-  rw [get_volume_int_eq, generated_level2_every_tree volSphere volFrustum volSF volPairs volMC ids pids r h h0 hok F]
+  rw [get_volume_int_eq, generated_level2_every_tree volSphere volFrustum volSF volPairs mcScene ids pids r h h0 hok F]
   simp
 
 /-- **levels 3 and 4, `get_volume` itself, every tree** (and the name `"low"`, see `get_volume_names`) -/
 theorem get_volume_level3_every_tree (acc : Nat) (h3 : 3 ≤ acc) (h5 : acc < 5) (ids pids : List Int) (r : Rose) (h : Represents r ids pids)
     (h0 : r.id = 0) (hok : Rows r ids) (F : Nat) :
-    get_volume_int volSphere volFrustum volSF volPairs volMC (2 * r.size + F + 1) ids pids "frustum_cone" (acc : Int)
+    get_volume_int volSphere volFrustum volSF volPairs mcScene (2 * r.size + F + 1) ids pids "frustum_cone" (acc : Int)
       = some (.ok (sumRose (fun i ks => volSphere i + Py.sumNum (ks.map fun c => volFrustum (i, c))
           - Py.sumNum (ks.map fun c => volSF i (i, c)) - Py.sumNum (ks.map fun c => volSF c (i, c))) r)) := by
-  rw [get_volume_int_eq, generated_level3_every_tree volSphere volFrustum volSF volPairs volMC acc h3 h5 ids pids r h h0 hok F]
+  rw [get_volume_int_eq, generated_level3_every_tree volSphere volFrustum volSF volPairs mcScene acc h3 h5 ids pids r h h0 hok F]
   have a1 : (0 : Int) < acc := by omega
   have a2 : (acc : Int) ≤ 10 := by omega
   simp [a1, a2]
@@ -78,38 +83,35 @@ theorem get_volume_level3_every_tree (acc : Nat) (h3 : 3 ≤ acc) (h5 : acc < 5)
 /-- **the accuracy names**: `"low"`, `"middle"`, `"high"` are `get_volume` at 3, 5, 8 (whatever the tree, the method, the fuel); every other string
 raises `KeyError` before anything else is looked at -/
 theorem get_volume_names (fuel : Nat) (ids pids : List Int) (method : String) :
-    get_volume_str volSphere volFrustum volSF volPairs volMC fuel ids pids method "low"
-        = get_volume_int volSphere volFrustum volSF volPairs volMC fuel ids pids method 3
-    ∧ get_volume_str volSphere volFrustum volSF volPairs volMC fuel ids pids method "middle"
-        = get_volume_int volSphere volFrustum volSF volPairs volMC fuel ids pids method 5
-    ∧ get_volume_str volSphere volFrustum volSF volPairs volMC fuel ids pids method "high"
-        = get_volume_int volSphere volFrustum volSF volPairs volMC fuel ids pids method 8
+    get_volume_str volSphere volFrustum volSF volPairs mcScene fuel ids pids method "low"
+        = get_volume_int volSphere volFrustum volSF volPairs mcScene fuel ids pids method 3
+    ∧ get_volume_str volSphere volFrustum volSF volPairs mcScene fuel ids pids method "middle"
+        = get_volume_int volSphere volFrustum volSF volPairs mcScene fuel ids pids method 5
+    ∧ get_volume_str volSphere volFrustum volSF volPairs mcScene fuel ids pids method "high"
+        = get_volume_int volSphere volFrustum volSF volPairs mcScene fuel ids pids method 8
     ∧ ∀ s : String, s ≠ "low" → s ≠ "middle" → s ≠ "high" →
-        get_volume_str volSphere volFrustum volSF volPairs volMC fuel ids pids method s = some (.error keyError) := by
+        get_volume_str volSphere volFrustum volSF volPairs mcScene fuel ids pids method s = some (.error keyError) := by
   obtain ⟨e1, e2, e3, e4⟩ := accuracy_names
   refine ⟨by rw [get_volume_str_eq, e1], by rw [get_volume_str_eq, e2], by rw [get_volume_str_eq, e3], ?_⟩
   intro s h1 h2 h3
   rw [get_volume_str_eq, e4 s h1 h2 h3]
 
-/-- **level 10**: `get_volume` returns what the Monte-Carlo-only routine returns, and that routine (generated from
-`_get_volume_frustum_cone_mc_only`) samples exactly the scene `sceneOf r`: for every tree, the union over all nodes, in traversal order, of the
-node's sphere and the frusta to its children.  (That the value `volMC` used by `_get_volume_frustum_cone` IS this routine's result on the same
-tree is the glue entry `_get_volume_frustum_cone_mc_only(tree)` of harness/algo_specs/14_voltrav.py.) -/
-theorem get_volume_level10 (mcScene : List Py.Shape → ℝ) (ids pids : List Int) (r : Rose) (h : Represents r ids pids) (h0 : r.id = 0) (hok : Rows r ids)
-    (F : Nat) (hmc : get_volume_mc_only mcScene (2 * r.size + F + 1) ids pids = some volMC) :
-    get_volume_int volSphere volFrustum volSF volPairs volMC (2 * r.size + F + 1) ids pids "frustum_cone" 10 = some (.ok (mcScene (sceneOf r))) := by
-  rw [mc_only_refines mcScene ids pids r h h0 hok F] at hmc
-  rw [get_volume_int_eq, getVolume_level10]
-  simp at hmc
-  simp [hmc]
+/-- **level 10, no hypothesis about the Monte-Carlo value**: `get_volume(tree, accuracy=10)` returns what the Monte-Carlo-only routine returns — the
+level-10 branch of the generated `_get_volume_frustum_cone` CALLS the generated `_get_volume_frustum_cone_mc_only` (`RefineVolume.getVolume_level10`) — and
+that routine samples exactly the scene `sceneOf r`: for every tree, the union over all nodes, in traversal order, of the node's sphere and the frusta to
+its children.  Only the sampler of the finished scene (`mcScene`, sdflit) is a parameter. -/
+theorem get_volume_level10 (ids pids : List Int) (r : Rose) (h : Represents r ids pids) (h0 : r.id = 0) (hok : Rows r ids) (F : Nat) :
+    get_volume_int volSphere volFrustum volSF volPairs mcScene (2 * r.size + F + 1) ids pids "frustum_cone" 10 = some (.ok (mcScene (sceneOf r))) := by
+  rw [get_volume_int_eq, getVolume_level10, mc_only_refines mcScene ids pids r h h0 hok F]
+  simp
 
 /-- non-vacuity: `get_volume` kernel-evaluated at `K = Int` on the table of `C04.lean`: levels 1, 2, 3, 5, 10, the three names, the rejected calls -/
 example : (([1, 2, 3, 5, 10, 0, 11, -4].map fun acc => get_volume_int (K := Int) (fun i => 1000 + i) (fun f => 100 * f.1 + 10 * f.2)
-      (fun s f => s + f.2) (fun s cs => 7 * cs.length) 424242 11 C04.exIds C04.exPids "frustum_cone" acc)
+      (fun s f => s + f.2) (fun s cs => 7 * cs.length) (fun _ => 424242) 11 C04.exIds C04.exPids "frustum_cone" acc)
     ++ (["low", "middle", "high", "Low"].map fun acc => get_volume_str (K := Int) (fun i => 1000 + i) (fun f => 100 * f.1 + 10 * f.2)
-      (fun s f => s + f.2) (fun s cs => 7 * cs.length) 424242 11 C04.exIds C04.exPids "frustum_cone" acc)
+      (fun s f => s + f.2) (fun s cs => 7 * cs.length) (fun _ => 424242) 11 C04.exIds C04.exPids "frustum_cone" acc)
     ++ [get_volume_int (K := Int) (fun i => 1000 + i) (fun f => 100 * f.1 + 10 * f.2)
-      (fun s f => s + f.2) (fun s cs => 7 * cs.length) 424242 11 C04.exIds C04.exPids "sphere" 3])
+      (fun s f => s + f.2) (fun s cs => 7 * cs.length) (fun _ => 424242) 11 C04.exIds C04.exPids "sphere" 3])
     = [some (.ok 5010), some (.ok 5710), some (.ok 5674), some (.ok 5646), some (.ok 424242), some (.error assertionError), some (.error assertionError),
        some (.error assertionError), some (.ok 5674), some (.ok 5646), some (.ok 5646), some (.error keyError), some (.error unsupportedMethod)] := by
   decide +kernel
